@@ -688,6 +688,8 @@ def oracle_eval(ctx, case, impl, knife, spread, sense_knife, nspread):
         cond_noise = 256 * EPS * float(abs(B * B) + abs(A * Ce)) * (1e8 if kind.startswith("far") else 1.0)
         if A != 0 and abs(float(disc)) <= cond_noise + 256 * EPS * mag * abs(fa) * (1e4 if kind.startswith("far") else 1):
             roots = []        # tangent within rounding: either answer is acceptable
+        if abs(fa) < wa and (abs(fb) <= 4096 * EPS * Mb or abs(float(Ce)) <= noise):
+            roots = []        # (nearly) linear ray polynomial whose slope or constant is rounding noise: -C/2B is meaningless
         first = ts[0] if ts else INF
         L = max(1.0, max(abs(x) for x in p))
         for x in roots:
